@@ -471,8 +471,9 @@ fn hex(bytes: &[u8], out: &mut String) {
 
 /// Length to which memory-row bodies pad their value: derived from the first encoded byte
 /// sum so the harness can steer value sizes through the arguments.
-pub fn pad_len(enc: &[u8]) -> usize {
-    let s: u32 = enc.iter().map(|b| *b as u32).sum();
+pub fn pad_len(enc: &[u8], version: u32) -> usize {
+    // depends on the version stamp too: a refreshed value of the same key may have another size
+    let s: u32 = enc.iter().map(|b| *b as u32).sum::<u32>().wrapping_add(version.wrapping_mul(5));
     24 + (s % 8) as usize * 22
 }
 
@@ -487,7 +488,7 @@ pub fn twin_value_enc(fn_id: u32, version: u32, enc: &[u8], pad: u32) -> String 
     hex(enc, &mut s);
     s.push(';');
     if pad > 0 {
-        let target = if pad == 1 { pad_len(enc) } else { pad as usize };
+        let target = if pad == 1 { pad_len(enc, version) } else { pad as usize };
         if s.len() < target {
             s.reserve(target - s.len());
             while s.len() < target {
